@@ -35,6 +35,8 @@ impl MemTable {
             let key = Key::from(entry);
             let value = entry.value.clone();
             self.skiplist.insert(key, value);
+            #[cfg(blue_verif)]
+            super::verif_events::point("w_insert", entry.timestamp, 0, 0);
         }
         Ok(())
     }
